@@ -10,6 +10,9 @@ namespace {
       impl::Mapping* map;
       const ipr::Parameter* P[3];
       const ipr::Expr* V[3];
+      // value number v for a binding of parameter p: two ordinary expressions, the parameter itself (an identity binding is a binding
+      // like any other: it replaces an earlier one) and another parameter of the same mapping
+      const ipr::Expr* value(unsigned p, unsigned v) const { return v == 0 ? V[0] : v == 1 ? V[2] : v == 2 ? static_cast<const ipr::Expr*>(P[p]) : static_cast<const ipr::Expr*>(P[(p + 1) % 3]); }
       World() {
          map = lx.make_mapping(*unit.global_region(), Mapping_level{ 1 });
          P[0] = map->param(lx.get_identifier(u8"a"), lx.int_type());
@@ -21,10 +24,10 @@ namespace {
 }
 extern "C" void h_elementary(void) {
    World* w = new World;
-   unsigned p = vp_pick(3), v = vp_pick(3), q = vp_pick(3);
-   const ipr::Substitution& s = *w->lx.make_elementary_substitution(*w->P[p], *w->V[v]);
+   unsigned p = vp_pick(3), v = vp_pick(4), q = vp_pick(3);
+   const ipr::Substitution& s = *w->lx.make_elementary_substitution(*w->P[p], *w->value(p, v));
    const ipr::Expr& r = s[*w->P[q]];
-   if (q == p) vp_assert(&r == w->V[v], 1);          // in the domain: the bound expression
+   if (q == p) vp_assert(&r == w->value(p, v), 1);          // in the domain: the bound expression
    else vp_assert(&r == w->P[q], 2);                 // outside: the parameter itself
    // a parameter of another mapping is outside the domain too
    impl::Mapping* other = w->lx.make_mapping(*w->unit.global_region(), Mapping_level{ 2 });
@@ -35,20 +38,20 @@ extern "C" void h_elementary(void) {
 extern "C" void h_general(void) {
    World* w = new World;
    impl::General_substitution* g = w->lx.make_general_substitution();
-   int last[3] = { -1, -1, -1 };
+   const ipr::Expr* last[3] = { nullptr, nullptr, nullptr };
    // the empty substitution is the identity
    for (int q = 0; q < 3; ++q) vp_assert(&(*g)[*w->P[q]] == w->P[q], 4);
    for (int k = 0; k < C16_K; ++k) {
-      unsigned p = vp_pick(3), v = vp_pick(3);
-      { const ipr::Expr& before = (*g)[*w->P[p]]; vp_assert(last[p] >= 0 ? &before == w->V[last[p]] : &before == w->P[p], 8); }     // looked up immediately before ...
-      impl::General_substitution& r = g->subst(*w->P[p], *w->V[v]);
+      unsigned p = vp_pick(3), v = vp_pick(4);
+      { const ipr::Expr& before = (*g)[*w->P[p]]; vp_assert(last[p] ? &before == last[p] : &before == w->P[p], 8); }     // looked up immediately before ...
+      impl::General_substitution& r = g->subst(*w->P[p], *w->value(p, v));
       vp_assert(&r == g, 5);
-      last[p] = (int)v;
-      vp_assert(&(*g)[*w->P[p]] == w->V[v], 9);                                                                                   // ... and immediately after the (re)binding
+      last[p] = w->value(p, v);
+      vp_assert(&(*g)[*w->P[p]] == last[p], 9);                                                                                   // ... and immediately after the (re)binding
       const ipr::Substitution& s = *g;
       for (int q = 0; q < 3; ++q) {
          const ipr::Expr& e = s[*w->P[q]];
-         if (last[q] >= 0) vp_assert(&e == w->V[last[q]], 6);     // latest binding wins
+         if (last[q]) vp_assert(&e == last[q], 6);                // latest binding wins
          else vp_assert(&e == w->P[q], 7);                        // unbound: unchanged
       }
    }
